@@ -62,6 +62,17 @@ chk("C06", "model_checking",
     "TLA+ spec GenHkl.tla model-checked by TLC; replay of every instance into genhkl_unique/genhkl_all; exact integer Q* as ordering and sintl oracle",
     "DESIGN.md section 7 C06")
 
+chk("C11", "model_checking",
+    "TLC enumerates all 8 valid orientations x all shapes 1..8 x 1..8 x both image functions, with numpy's primitives as index maps and "
+    "the code's compositions executed one primitive per action; invariants: trans_orientation stores pixel (x,y) at the index the "
+    "coordinate requirement prescribes, the map is a bijection, inverse mode undoes forward mode, the coordinate functions are mutual "
+    "inverses (quarter-pixel resolution), validation accepts exactly the signed permutation matrices (all 81). Every terminal state, "
+    "every pixel, the 73 x 4 rejections, large non-square shapes (coordinates from TLC) and exact circle points for eta/radius are "
+    "replayed into the real functions.",
+    "Trusted: TLC; numpy index semantics as written in Flips.tla (the replay compares them with numpy). Size convention as stated in the property.",
+    "TLA+ specs Flips.tla / FlipsBig.tla / EtaRad.tla model-checked exhaustively by TLC + replay of every terminal state into xfab.detector",
+    "DESIGN.md section 7 C11")
+
 ALL = ["C%02d" % i for i in range(1, 21)]
 
 
